@@ -9,8 +9,9 @@
   * `run_pong_oversize`   — a PONG longer than the reader's limit (audit b2);
   * `connect_ok_limits`   — what a successful `connect` says about the two peers' limits, for
     EVERY protocol byte (audit a5);
-  * `readerAtEOF`         — a proposed (not yet generated / not yet family-tied) reading of what
-    `recvHandler` does when the stream ends; see the report.
+  * `readerAtEOF`         — the earlier hand-written reading of what `recvHandler` does when the
+    stream ends, shown equal to the model's end-of-stream step `Nexus.Frame.atEOF`;
+  * `run_pong_truncated`  — a PONG frame whose payload has not arrived completely.
 
   Nothing here changes the model; every statement is about `Nexus.Frame.*` as it is.
 -/
@@ -318,7 +319,12 @@ theorem connect_ok_limits (p : UInt8) (rc rs : Int) (c s : PeerCfg) (rep : List 
     injection h' with hc _
     cases hc
 
-/-! ## end of stream (proposal; see the report) -/
+/-! ## end of stream
+
+  End of stream is an input of the reader model now (`Nexus.Frame.In`, `atEOF`, `stepIn`,
+  `runIn`, `decodeStreamEOF`, `readErrAction` in `Nexus/Frame/Stream.lean`).  `readerAtEOF`
+  below is the earlier hand-written reading, kept for reference only; `readerAtEOF_atEOF`
+  shows it says the same as the model's end-of-stream step. -/
 
 /-- How `recvHandler` ends when the byte stream ends (the peer closed its writing side, or the
     connection broke) with the reader in state `s`. In every case the goroutine returns, the
@@ -327,8 +333,7 @@ theorem connect_ok_limits (p : UInt8) (rc rs : Int) (c s : PeerCfg) (rep : List 
     * `hdr0` — `io.ReadFull(header)` returns `io.EOF` (rawsocketpeer.go:269-286);
     * inside a header / a body — `io.ReadFull` returns `io.ErrUnexpectedEOF`
       (:269-286 for the header, :299-304 MSG, :317-321 PING, :329-334 PONG): the partial frame
-      is discarded.
-    This function is NOT generated from the source and not yet compared by a family. -/
+      is discarded. -/
 inductive EndOfStream where
   | closedBefore (why : CloseReason)
   | eofBetweenFrames
@@ -339,5 +344,46 @@ def readerAtEOF : RState → EndOfStream
   | .closed why => .closedBefore why
   | .hdr0 => .eofBetweenFrames
   | s => .eofInsideFrame s
+
+/-- The earlier reading and the model's end-of-stream step agree. -/
+theorem readerAtEOF_atEOF (s : RState) :
+    atEOF s = match readerAtEOF s with
+      | .closedBefore why => .closed why
+      | .eofBetweenFrames => .closed (.eof false)
+      | .eofInsideFrame _ => .closed (.eof true) := by
+  cases s <;> rfl
+
+section
+variable {M : Type} (de : List UInt8 → Option M) (rl : Int)
+
+/-- A PONG frame announcing `n ≤ recvLimit` bytes of which only `p.length < n` have arrived:
+    no event, the reader is blocked in `io.CopyN(io.Discard, …)`. -/
+theorem run_pong_truncated (h0 l0 l1 l2 : UInt8) (n : Nat) (p : List UInt8)
+    (hk : Gen.readerCase (Gen.frameType h0) = .pong)
+    (hn : Gen.bytesToInt [l0, l1, l2] = Int.ofNat n) (hle : (n : Int) ≤ rl) (hp : p.length < n) :
+    run de rl .hdr0 (h0 :: l0 :: l1 :: l2 :: p) = ([], .discard (n - 1 - p.length)) := by
+  have hd : ∀ (p : List UInt8) (k : Nat), p.length ≤ k →
+      run de rl (.discard k) p = (([] : List (Ev M)), RState.discard (k - p.length)) := by
+    intro p
+    induction p with
+    | nil => intro k _; simp [run]
+    | cons x xs ih =>
+      intro k h
+      cases k with
+      | zero => simp at h
+      | succ k =>
+        simp only [run, step]
+        rw [ih k (by simpa using h)]
+        simp
+  rw [run_header]
+  unfold onHeader
+  simp only [hn, hk]
+  rw [if_neg (by rw [not_oversize rl hle]; simp)]
+  have e : (Int.ofNat n).toNat = n := by simp
+  simp only [e, if_neg (show ¬ n = 0 by omega)]
+  rw [hd p (n - 1) (by omega)]
+  simp
+
+end
 
 end Nexus.Frame.WpD
